@@ -73,6 +73,12 @@ var c07BoundsReasons = map[string]struct {
 	n      int
 	reason string
 }{
+	"css/properties.KnownProp.String":        {1, "propsNames has NbProperties entries and is indexed by a KnownProp: every KnownProp in the module is one of the declared property constants (C04.R1 decides that the constants 1..NbProperties-1 are exactly the keys of the tables); the sentinel NbProperties itself is never used as a value"},
+	"css/validation.ValidateKnown":           {1, "validators has NbProperties entries and name is a declared property constant (see KnownProp.String)"},
+	"html/tree.(*ComputedStyle).Get":         {1, "computerFunctions has NbProperties entries and key.KnownProp is a declared property constant or 0 (see KnownProp.String)"},
+	"css/validation._expandGridArea":         {1, "expandGridColumnRowArea(tokens, 4) returns between 1 and 4 lists (it rejects more than maxNumber lines and pads up to maxNumber): a length relation with the callee's argument"},
+	"css/validation._expandGridColumnRow":    {1, "expandGridColumnRowArea(tokens, 2) returns between 1 and 2 lists: a length relation with the callee's argument"},
+	"svg.Value.Resolve":                      {1, "the default branch indexes toPx (8 entries, Px..Pc) with the units left after the cases for 0, Px, Perc, Em, Rem and Ex: Cm..Pc, all below 8; the internal units auto/autoStartReverse are only produced by parseOrientation for marker orient, which is never resolved"},
 	"css/parser.AtKeyword.serializeTo":       {1, "an at-keyword token always has a non-empty name: the tokenizer only builds it after isIdentStart"},
 	"css/parser.Dimension.serializeTo":       {1, "a dimension token always has a non-empty unit: the tokenizer only builds it when an identifier follows the number"},
 	"css/parser.FunctionBlock.serializeTo":   {2, "a function name is a non-empty identifier; the loop reads fn.Arguments[len-1] after breaking on len(fn.Arguments) == 0 (the two loads of the field are not connected by the value numbering)"},
@@ -177,6 +183,34 @@ func c07(c *core.Check) {
 				r1.OK(key, p.Pos(vs.Instr.Pos()), "index cannot be negative: "+why)
 			} else {
 				openBy[core.FuncName(fn)] = append(openBy[core.FuncName(fn)], open{key, p.Pos(vs.Instr.Pos()), "the index / bound v-c can be negative: " + why})
+			}
+		}
+	}
+	// variable index into a fixed-size array
+	enumMax := func(t *types.Named) (int64, bool) {
+		if t.Obj().Pkg() == nil {
+			return 0, false
+		}
+		cs := p.ConstsOfType(core.Rel(t.Obj().Pkg().Path()), t.Obj().Name())
+		if len(cs) < 2 {
+			return 0, false
+		}
+		max := int64(-1)
+		for v := range cs {
+			if v > max {
+				max = v
+			}
+		}
+		return max, true
+	}
+	for _, fn := range scope {
+		for _, as := range core.ArrayIndexSites(fn) {
+			key := fmt.Sprintf("%s | %s | array[%d] index", core.FuncName(fn), p.StmtTextAt(fn, as.Instr.Pos()), as.Len)
+			ok, why := core.ProveArrayIndex(as, abs, enumMax)
+			if ok {
+				r1.OK(key, p.Pos(as.Instr.Pos()), why)
+			} else {
+				openBy[core.FuncName(fn)] = append(openBy[core.FuncName(fn)], open{key, p.Pos(as.Instr.Pos()), "variable index into a fixed-size array: " + why})
 			}
 		}
 	}
